@@ -236,15 +236,25 @@ func (d *DeviceRemote) AddEntityAndFeatures(initialData bool, data *model.NodeMa
 			}
 		}
 
+		// create the announced features before replacing the existing ones, so the
+		// entity keeps its features if the feature information turns out to be invalid
+		var features []api.FeatureRemoteInterface
+		for _, fi := range data.FeatureInformation {
+			if fi.Description == nil || fi.Description.FeatureAddress == nil {
+				continue
+			}
+			if reflect.DeepEqual(fi.Description.FeatureAddress.Entity, entityAddress) {
+				if f, ok := unmarshalFeature(entity, fi); ok {
+					features = append(features, f)
+				}
+			}
+		}
+
 		entity.SetDescription(ei.Description.Description)
 		entity.RemoveAllFeatures()
 
-		for _, fi := range data.FeatureInformation {
-			if reflect.DeepEqual(fi.Description.FeatureAddress.Entity, entityAddress) {
-				if f, ok := unmarshalFeature(entity, fi); ok {
-					entity.AddFeature(f)
-				}
-			}
+		for _, f := range features {
+			entity.AddFeature(f)
 		}
 
 		// the node management feature is needed to process any message of the
